@@ -48,8 +48,9 @@ Seeds == <<
              [n |-> "Sq",   kind |-> "type", ty |-> O(<<Prop("kind", LS("sq"), FALSE), Prop("s", TNumber, FALSE)>>)]>>,
    ty |-> Uni(<<Inter(<<Ref("Base"), Ref("Cp")>>), Ref("Sq")>>)],
   \* two levels of tags: two variants share a value of the first discriminator
-  [env |-> <<>>, ty |-> Uni(<<O(<<Prop("kind", LS("text"), FALSE), Prop("format", LS("plain"), FALSE), Prop("a", TString, FALSE)>>),
-                              O(<<Prop("kind", LS("text"), FALSE), Prop("format", LS("html"), FALSE), Prop("b", TNumber, FALSE)>>),
+  \* (the two text variants have the same keys: their order among the union members is decided by the `format` types alone)
+  [env |-> <<>>, ty |-> Uni(<<O(<<Prop("kind", LS("text"), FALSE), Prop("format", LS("plain"), FALSE), Prop("v", TString, FALSE)>>),
+                              O(<<Prop("kind", LS("text"), FALSE), Prop("format", LS("html"), FALSE), Prop("v", TNumber, FALSE)>>),
                               O(<<Prop("kind", LS("img"), FALSE), Prop("c", TString, FALSE)>>)>>)],
   \* a generic whose body refers to an interface that mentions a declared type named like the generic's parameter
   [env |-> <<[n |-> "X", kind |-> "type", ty |-> TNumber],
